@@ -19,6 +19,7 @@ PoolCore == {
   E("2p53", "big", Lit(D("9007199254740992")), {}), E("2p63", "huge", Lit(D("9223372036854775808")), {}),
   E("1e308", "huge", Lit(D("1e308")), {}), E("inf", "inf", InfE, {}), E("nan", "nan", Bin("-", InfE, InfE), {}),
   E("s_empty", "str-empty", Lit(S("")), {}), E("s_a", "str-alpha", Lit(S("a")), {}), E("s_12", "str-numeric", Lit(S("12")), {}),
+  E("wide", "wide", Bin("|", Bin("<<", Lit(N(1)), Lit(N(53))), Lit(N(1))), {}),   \* an int64 no double holds: 2^53 + 1
   E("arrA", "arr", Id("A"), {1}), E("arrB", "arr", Id("B"), {2}), E("objO", "obj", Id("O"), {3}),
   E("fn", "fn", Id("f"), {5}), E("nat", "nat", Id("len"), {}) }
 PoolMore == {
@@ -52,14 +53,28 @@ PlusBool(e) == IF e.k \notin {"bin", "un"} THEN FALSE
 RandCases == { x \in { [t |-> <<SPrint(RExpr(SeedProp * 4096 + k, 1, 3))>>, c |-> "random-nested", key |-> "rand" \o IntStr(SeedProp) \o "." \o IntStr(k)] : k \in 1..NRandom } :
                ~PlusBool(x.t[1].c[1]) }
 
-Cases == SetToSeq(BinCases \cup UnCases \cup RandCases)
+(* chains: every pair of binary operators in both groupings, and every unary operator around / inside every binary one, on
+   operands for which the grouping matters; MinParen writes only the parentheses the grammar needs, FullParen all of them *)
+Triples == { <<37, 3, 2>>, <<2, 3, 2>> }
+ChainCases ==
+  { [t |-> <<SPrint(Bin(o2, Bin(o1, Lit(N(tr[1])), Lit(N(tr[2]))), Lit(N(tr[3]))))>>, c |-> "chain|" \o o1 \o "|" \o o2 \o "|left",
+     key |-> "chain (" \o IntStr(tr[1]) \o o1 \o IntStr(tr[2]) \o ")" \o o2 \o IntStr(tr[3])] : o1 \in BinOpsAll, o2 \in BinOpsAll, tr \in Triples }
+  \cup { [t |-> <<SPrint(Bin(o1, Lit(N(tr[1])), Bin(o2, Lit(N(tr[2])), Lit(N(tr[3])))))>>, c |-> "chain|" \o o1 \o "|" \o o2 \o "|right",
+     key |-> "chain " \o IntStr(tr[1]) \o o1 \o "(" \o IntStr(tr[2]) \o o2 \o IntStr(tr[3]) \o ")"] : o1 \in BinOpsAll, o2 \in BinOpsAll, tr \in Triples }
+  \cup { [t |-> <<SPrint(Un(u, Bin(o, Lit(N(5)), Lit(N(2)))))>>, c |-> "chain|un" \o u \o "|" \o o \o "|around", key |-> "chain " \o u \o "(5" \o o \o "2)"] : u \in {"-", "~", "!"}, o \in BinOpsAll }
+  \cup { [t |-> <<SPrint(Bin(o, Un(u, Lit(N(5))), Lit(N(2))))>>, c |-> "chain|un" \o u \o "|" \o o \o "|left", key |-> "chain (" \o u \o "5)" \o o \o "2"] : u \in {"-", "~", "!"}, o \in BinOpsAll }
+  \cup { [t |-> <<SPrint(Bin(o, Lit(N(5)), Un(u, Lit(N(2)))))>>, c |-> "chain|un" \o u \o "|" \o o \o "|right", key |-> "chain 5" \o o \o "(" \o u \o "2)"] : u \in {"-", "~", "!"}, o \in BinOpsAll }
+  \cup { [t |-> <<SPrint(Log(l1, Log(l2, Lit(N(0)), Lit(N(1))), Bin("==", Lit(N(2)), Lit(N(2)))))>>, c |-> "chain|" \o l2 \o "|" \o l1 \o "|left", key |-> "chain (0 " \o l2 \o " 1) " \o l1 \o " 2==2"] : l1 \in {"and", "or"}, l2 \in {"and", "or"} }
+  \cup { [t |-> <<SPrint(Log(l1, Lit(N(0)), Log(l2, Lit(N(1)), Bin("==", Lit(N(2)), Lit(N(3))))))>>, c |-> "chain|" \o l1 \o "|" \o l2 \o "|right", key |-> "chain 0 " \o l1 \o " (1 " \o l2 \o " 2==3)"] : l1 \in {"and", "or"}, l2 \in {"and", "or"} }
+
+Cases == SetToSeq(BinCases \cup UnCases \cup RandCases \cup ChainCases)
 Programs == [i \in 1..Len(Cases) |-> LayoutProg(Cases[i].t, 1)]
 FamProgOf(i) == Programs[i]
 Init == \E i \in 1..Len(Programs) : InitSem(i, <<>>, FALSE)
 Next == SemNext
 EmitInv == (EmitOn /\ Final) =>
    Emit([fam |-> "ops", cls |-> Cases[pid].c, key |-> Cases[pid].key, pid |-> pid,
-         toks |-> Compact(Yield(MinParen(P))), tree |-> P, stdin |-> stdin, repl |-> repl,
+         toks |-> Compact(Yield(MinParen(P))), full |-> Compact(Yield(FullParen(P))), tree |-> P, stdin |-> stdin, repl |-> repl,
          status |-> status, why |-> why, out |-> out, diags |-> diags, natlog |-> natlog, steps |-> steps])
 
 (* laws of the operator tables, checked over the whole pool by TLC when the model is loaded *)
